@@ -77,8 +77,19 @@ struct ChildProc {
     marker_len: u64,
 }
 
+/// A free port that no other thread of this process has been given (two shards starting their
+/// children at the same moment must not end up talking to one child).
 fn free_port() -> Option<u16> {
-    std::net::TcpListener::bind("127.0.0.1:0").ok()?.local_addr().ok().map(|a| a.port())
+    static HANDED_OUT: std::sync::Mutex<Vec<u16>> = std::sync::Mutex::new(Vec::new());
+    for _ in 0..50 {
+        let p = std::net::TcpListener::bind("127.0.0.1:0").ok()?.local_addr().ok().map(|a| a.port())?;
+        let mut seen = HANDED_OUT.lock().ok()?;
+        if !seen.contains(&p) {
+            seen.push(p);
+            return Some(p);
+        }
+    }
+    None
 }
 
 impl ChildProc {
@@ -118,6 +129,12 @@ impl ChildProc {
                 return Err("child did not open its port within 30 s".to_string());
             }
             std::thread::sleep(Duration::from_millis(20));
+        }
+        // a child that lost the race for its port (another process took it) exits at once: then the
+        // listener we reached is not ours
+        std::thread::sleep(Duration::from_millis(200));
+        if let Some(how) = cp.exited() {
+            return Err(format!("child exited right after start ({}): port {} was taken", how, port));
         }
         Ok(cp)
     }
@@ -244,6 +261,8 @@ pub struct Input {
     /// switch a process-wide setting on and off again
     pub prelude: Vec<Vec<Vec<u8>>>,
     pub postlude: Vec<Vec<Vec<u8>>>,
+    /// a pipeline of this many complete requests: that many replies are owed (0 = not a pipeline)
+    pub expect_replies: usize,
 }
 
 fn cmd(args: &[&[u8]]) -> Vec<u8> {
@@ -260,6 +279,7 @@ pub fn corpus(rng: &mut Rng, thorough: bool) -> Vec<Input> {
             complete,
             prelude: vec![],
             postlude: vec![],
+            expect_replies: 0,
         })
     };
     // --- raw bytes: length prefixes
@@ -365,6 +385,7 @@ pub fn corpus(rng: &mut Rng, thorough: bool) -> Vec<Input> {
                 complete: true,
                 prelude: slow_on.clone(),
                 postlude: slow_off.clone(),
+                expect_replies: 0,
             });
         }
     }
@@ -420,6 +441,16 @@ pub fn corpus(rng: &mut Rng, thorough: bool) -> Vec<Input> {
     add("cmd:long-name", "command name of 100 KB".into(), cmd(&[&vec![b'A'; 100_000]]), true);
     add("cmd:mset-odd", "MSET with odd arguments".into(), cmd(&[b"MSET", b"a", b"1", b"b"]), true);
     v.extend(slow_inputs);
+    // pipelines written in one piece: every request is owed a reply, however many arrive together
+    for n in [2usize, 63, 64, 65, 66, 128, 129, 200, 1000, 5000] {
+        for (what, one) in [("PING", cmd(&[b"PING"])), ("ECHO", cmd(&[b"ECHO", b"hello"])), ("GET", cmd(&[b"GET", b"pipelined-key"])), ("CLUSTER KEYSLOT", cmd(&[b"CLUSTER", b"KEYSLOT", b"abc"]))] {
+            let mut bytes = Vec::with_capacity(one.len() * n);
+            for _ in 0..n {
+                bytes.extend_from_slice(&one);
+            }
+            v.push(Input { class: "pipeline", desc: format!("{} x {} in one write", what, n), bytes, complete: true, prelude: vec![], postlude: vec![], expect_replies: n });
+        }
+    }
     v
 }
 
@@ -653,6 +684,85 @@ fn run_input(j: &mut Judge, cp: &mut ChildProc, canary: &mut Conn, input: &Input
         let _ = canary.roundtrip(&a, Duration::from_secs(20));
     }
     let _ = hostile.s.set_write_timeout(Some(Duration::from_secs(20)));
+    if input.expect_replies > 0 {
+        // a writer thread keeps the send side from blocking on a full socket while we read
+        let mut wsock = match hostile.s.try_clone() {
+            Ok(w) => w,
+            Err(_) => return true,
+        };
+        let data = input.bytes.clone();
+        let writer = std::thread::spawn(move || {
+            let _ = wsock.write_all(&data);
+        });
+        let mut buf: Vec<u8> = vec![];
+        let mut got = 0usize;
+        let mut parsed_to = 0usize;
+        let mut quiet = 0u32;
+        let mut closed = false;
+        let start = Instant::now();
+        let _ = hostile.s.set_read_timeout(Some(Duration::from_millis(100)));
+        let mut chunk = [0u8; 65536];
+        while got < input.expect_replies {
+            match hostile.s.read(&mut chunk) {
+                Ok(0) => {
+                    closed = true;
+                    break;
+                }
+                Ok(n) => {
+                    buf.extend_from_slice(&chunk[..n]);
+                    quiet = 0;
+                    let (items, _) = crate::resp_ref::ref_parse_stream(&buf[parsed_to..]);
+                    if let Some(last) = items.last() {
+                        got += items.len();
+                        parsed_to += last.2;
+                    }
+                }
+                Err(ref e) if e.kind() == std::io::ErrorKind::WouldBlock || e.kind() == std::io::ErrorKind::TimedOut => {
+                    // nothing arrived for 100 ms: is the proxy still working on it?
+                    if cp.burn_ms(150) < 20 {
+                        quiet += 1;
+                    } else {
+                        quiet = 0;
+                    }
+                    if quiet >= 4 {
+                        break;
+                    }
+                }
+                Err(_) => {
+                    closed = true;
+                    break;
+                }
+            }
+            if start.elapsed() > Duration::from_secs(90) {
+                j.rep.inconclusive(format!("wall-clock cap reached on input '{}'", input.desc));
+                break;
+            }
+        }
+        let _ = hostile.s.shutdown(std::net::Shutdown::Both);
+        let _ = writer.join();
+        j.rep.count("pipelined_requests_sent", input.expect_replies as u64);
+        j.rep.count("pipelined_replies_received", got as u64);
+        if let Some(how) = cp.exited() {
+            j.rep.violation(format!("C16:process-died:{}", input.class), format!("the proxy process died ({}) on input '{}'", how, input.desc), detail(json!({"exit": how})));
+            return false;
+        }
+        if got < input.expect_replies && !closed && start.elapsed() <= Duration::from_secs(90) {
+            j.rep.violation(
+                "C16:pipeline-not-fully-answered".to_string(),
+                format!("input '{}': {} complete requests were written, {} replies arrived, then the proxy went idle with the connection still open", input.desc, input.expect_replies, got),
+                detail(json!({"replies": got})),
+            );
+        }
+        let pong = canary.roundtrip(&[b"PING"], Duration::from_secs(20));
+        if pong.is_none() {
+            j.rep.violation(format!("C16:other-connections-not-served:{}", input.class), format!("a PING on another connection got no answer after input '{}'", input.desc), detail(json!({})));
+        }
+        let panics = cp.new_panics();
+        if !panics.is_empty() {
+            j.rep.violation(format!("C16:panic:{}", input.class), format!("input '{}' made the proxy panic: {}", input.desc, panics[0]), detail(json!({"panics": panics})));
+        }
+        return true;
+    }
     let wrote = hostile.s.write_all(&input.bytes).is_ok();
     let _ = hostile.s.flush();
     // CPU budget for this request: generous constant + linear in the bytes sent
@@ -793,7 +903,10 @@ pub fn run(rep: &mut Report) {
     rep.rule = "a child process runs the real ServerProxyService (loopback TCP, 2 worker threads, in-memory backends, panic hook writing a marker file, RLIMIT_AS 6 GB); hostile inputs: raw bytes (length prefixes up to 2^64, nesting 10..200000, garbage, truncated packets, 1 MB values, 100000-element arrays) and every supported command family with extreme / missing / non-UTF-8 arguments (EVAL numkeys, UMFORWARD, blocking pops, UMCTL SETCLUSTER/SETREPL/PRECHECK with huge counts and ranges, compressed metadata garbage, CLUSTER/CONFIG/SLOWLOG), before and after metadata is installed. Oracle per input: child alive, no new panic line, hostile connection answered or closed within a CPU-time budget linear in the input size while a canary connection keeps being served, peak RSS growth bounded by the input size. distinct_nontrivial = distinct (phase, input) pairs".to_string();
     let thorough = rep.is_thorough();
     let mut rng = Rng::new(rep.seed);
-    let inputs = corpus(&mut rng, thorough);
+    let mut inputs = corpus(&mut rng, thorough);
+    if let Ok(only) = std::env::var("VERIF_C16_ONLY") {
+        inputs.retain(|i| i.class.contains(&only) || i.class == "resp:garbage");
+    }
     rep.extra.insert("corpus_size".into(), json!(inputs.len()));
     // shard the corpus over a few children running in parallel
     let shards = 8usize;
@@ -813,7 +926,15 @@ pub fn run(rep: &mut Report) {
                         continue;
                     }
                     if cp.is_none() {
-                        match ChildProc::spawn((sh * 100000 + i) as u64) {
+                        let mut spawned = ChildProc::spawn((sh * 100000 + i) as u64);
+                        for attempt in 1..4u64 {
+                            if spawned.is_ok() {
+                                break;
+                            }
+                            local.count("child_start_retries", 1);
+                            spawned = ChildProc::spawn((sh * 100000 + i) as u64 + attempt * 7);
+                        }
+                        match spawned {
                             Ok(c) => {
                                 local.count("children_spawned", 1);
                                 let mut can = match Conn::open(c.port) {
